@@ -49,6 +49,9 @@ func Boundary(w expr.Width) []*big.Int {
 	add(new(big.Int).Add(top, one))
 	add(new(big.Int).Sub(m, one))
 	add(new(big.Int).Sub(m, big.NewInt(2)))
+	if w > 1 {
+		add(new(big.Int).Sub(m, big.NewInt(256))) // a non-zero value whose lowest byte is zero
+	}
 	pat := new(big.Int)
 	for i := 0; i < int(w); i++ {
 		pat.Lsh(pat, 8)
